@@ -4,7 +4,7 @@ func init() {
 	props["C11"] = &propCfg{
 		ID: "C11", Harness: "maporder",
 		Quick:    tierCfg{Runs: 4000, Procs: 8, Params: "orders=6", WallS: 600},
-		Thorough: tierCfg{Runs: 300000, Procs: 16, Params: "orders=24", Seeds: 3, WallS: 3300},
+		Thorough: tierCfg{Runs: 80000, Procs: 16, Params: "orders=24", Seeds: 3, WallS: 3300},
 		Rule: "one evaluation = one execution of a generated scenario (Zn script; main+modules on the simulated disk with libraries imported before, between and after modules and from inside modules; module programs that list a directory of 2-2600 files, whose entries the simulated file system hands out in a tape-drawn directory order (site fs.directory-order; open directory handles page through them); HTTP request with up to 1500 header or query names through ZnHttpHandler; ExecExpressionInputText) under one map-iteration-order schedule; each scenario runs once with the canonical order and K more times with tape-chosen orders (sorted/reverse/rotation/permutation per range execution) and all observable outcomes must be identical; values include linked lists of dictionaries 3-200 levels deep (depths around 64) that differ in one node, compared with 为 / 不为 / 包含 / 寻找 in statements of their own. distinct_nontrivial = distinct scenarios (hash of their text) that reached at least one range-over-map site with >= 2 keys.",
 		Assume: []string{
 			"T1 rewrites every `range` over a map in pkg/... and stdlib/{json,file} of the scratch copy; maps iterated inside dependencies (encoding/json sorts keys itself) are outside the seam",
@@ -20,7 +20,7 @@ func init() {
 	props["C17"] = &propCfg{
 		ID: "C17", Harness: "disk",
 		Quick:    tierCfg{Runs: 40000, Procs: 8, WallS: 600},
-		Thorough: tierCfg{Runs: 5000000, Procs: 16, Seeds: 3, WallS: 3300},
+		Thorough: tierCfg{Runs: 1000000, Procs: 16, Seeds: 3, WallS: 3300},
 		Rule: "one evaluation = one byte string (valid UTF-8 built from 1/2/3/4-byte characters and the legitimate U+FFFD with lengths around 0, 1, 4095-4097, 8191-8193, 13000 and an alignment shift; zero/one/two BOMs; or one of 8 corruption classes incl. GBK text at a drawn position) put on the simulated disk and decoded through FileStream.ReadAll, FileStream.Read(n) called until end of input with a caller-chosen block size n (1-8, 13, 64, 1000, 4095-4097, 8192, 65536), ByteStream.ReadAll or end to end through LoadFile(...).Execute of an n-line program whose line i displays i; the file under test is the main file or (one LoadFile run in three) a module imported by a one-line main file; a third of the valid LoadFile runs then REPLACE the file by one of the same size and modification time (one label changed, or one byte damaged) and load it again in the same process; sizes reach 300 KB with boundaries at 32/64 KiB; in profile `stream` every read may deliver only 1-12 bytes (a fifth of the runs) and the file may also be a pipe (stat size 0) or a synthetic file whose stat size (0, 1, 4096) says nothing about its content; profile `regular` = full reads, no faults; profile `concurrent` = after 0-2 earlier decodes in the same process (half of them rejected files) 2-3 tasks decode DIFFERENT files at the same time under the seeded scheduler (switch points: return of every simulated read, every function entry of pkg/io, pkg/exec, pkg/runtime; sync.Pool modelled as a per-world LIFO stack), each result compared with the reference decoder and with the same file decoded alone; profile `stream` = the length of every read (full/shorter/1 byte/just short of full) and one EIO are tape decisions. Oracle: utf8.Valid ? runes minus one leading BOM : error; injected EIO => error, never a prefix; fewer displayed lines without error = silently truncated program. distinct_nontrivial = distinct (profile, target, file class, corruption, EIO planned, size class) tuples.",
 		Assume: []string{
 			"T2 routes os.Open/os.Stat of pkg/io and pkg/exec to the simulated disk; the simulated reads return any length a POSIX read may return (>=1 byte, or 0+EOF at the end)",
@@ -63,7 +63,7 @@ func init() {
 	props["C09"] = &propCfg{
 		ID: "C09", Harness: "exc",
 		Quick:    tierCfg{Runs: 40000, Procs: 8, WallS: 600},
-		Thorough: tierCfg{Runs: 4000000, Procs: 16, Seeds: 3, WallS: 3300},
+		Thorough: tierCfg{Runs: 1500000, Procs: 16, Seeds: 3, WallS: 3300},
 		Rule: "one evaluation = one generated program (1-3 modules on the simulated disk: functions, a class with constructor and methods, a custom exception class per module (in a third of the programs named alike up to letter case: HttpError / HTTPError / httpError), bounded 每当/遍历 loops, branches, 拦截 blocks of class 异常 / 探针异常 / a custom class on any body, handlers that themselves raise, CRLF line ends, comments, multi-line comments and multi-line text literals — also with empty lines inside and a break before the closing quote — before statements) executed by the real interpreter through LoadFile with the probe library 《@探针》 registered through SetExternalLibs; the simulator draws which dynamic probe invocation fails and how (exception signal, custom-class exception object, plain Go error, RuntimeError); generated 抛出 (often under a constant condition), 1 / 0, a failing built-in (转换数值) and two failing file operations on the simulated disk (读取文件 of a directory: opens, read fails; of a missing path) are part of the workload; functions are also called through aliases (令别 = 函数), uncaught messages contain format verbs and braces, one body in twelve holds a declaration that fails while it is being declared (a local class with a failing property initialiser, a constructor for something that is not a class), once per program a recursion started from the main body is 40-2600 frames deep, 抛出 of non-types and six more runtime faults of ordinary expressions are raise kinds, and a quarter of the single-module programs are files without any 导入 whose top-level statements come first (line 1 is a statement) and whose declarations follow. Oracle: a reference interpreter over the generator's AST (frames, locals per frame, handler matching by class name, 其 binding, unwinding) replays the same fault plan and predicts the display trace (incl. follow-up probes of caller locals, 其值 and call results after every call) and the result or the uncaught message. distinct_nontrivial = distinct (first uncaught raise kind | handled count | module count | fault kind) tuples; a run is non-trivial when something was raised.",
 		Assume: []string{
 			"reference semantics = the property's text: every raise kind is an exception of class 异常 unless it is a custom-class object; handlers match by exact class name; a handler without 输出 yields 空; handlers do not protect themselves",
@@ -78,7 +78,7 @@ func init() {
 	props["C18"] = &propCfg{
 		ID: "C18", Harness: "exc",
 		Quick:    tierCfg{Runs: 40000, Procs: 8, WallS: 600},
-		Thorough: tierCfg{Runs: 4000000, Procs: 16, Seeds: 3, WallS: 3300},
+		Thorough: tierCfg{Runs: 1500000, Procs: 16, Seeds: 3, WallS: 3300},
 		Rule: "PARTIAL CLAIM (runtime half only). one evaluation = one generated program (1-3 modules on the simulated disk: functions, a class with constructor and methods, a custom exception class per module (in a third of the programs named alike up to letter case: HttpError / HTTPError / httpError), bounded 每当/遍历 loops, branches, 拦截 blocks of class 异常 / 探针异常 / a custom class on any body, handlers that themselves raise, CRLF line ends, comments, multi-line comments and multi-line text literals — also with empty lines inside and a break before the closing quote — before statements) executed by the real interpreter through LoadFile with the probe library 《@探针》 registered through SetExternalLibs; the simulator draws which dynamic probe invocation fails and how (exception signal, custom-class exception object, plain Go error, RuntimeError); generated 抛出 (often under a constant condition), 1 / 0, a failing built-in (转换数值) and two failing file operations on the simulated disk (读取文件 of a directory: opens, read fails; of a missing path) are part of the workload; functions are also called through aliases (令别 = 函数), uncaught messages contain format verbs and braces, one body in twelve holds a declaration that fails while it is being declared (a local class with a failing property initialiser, a constructor for something that is not a class), once per program a recursion started from the main body is 40-2600 frames deep, 抛出 of non-types and six more runtime faults of ordinary expressions are raise kinds, and a quarter of the single-module programs are files without any 导入 whose top-level statements come first (line 1 is a statement) and whose declarations follow. Oracle: for runs whose behaviour agrees with the reference interpreter and that end in an uncaught fault, the (module, line) entries parsed from exec.DisplayError must equal the frames active at the fault in the reference interpreter (module and physical call-site line per frame, innermost statement line; library/native frames ignored; handler frame separate or merged; outermost-first or innermost-first). distinct_nontrivial as for C09; a run is non-trivial when it ended in an uncaught fault.",
 		Assume: []string{
 			"the syntax-error half of C18 (caret column) is a pure function of the text and is NOT covered",
@@ -92,7 +92,7 @@ func init() {
 	props["C20"] = &propCfg{
 		ID: "C20", Harness: "prefork",
 		Quick:    tierCfg{Runs: 4000, Procs: 8, WallS: 900},
-		Thorough: tierCfg{Runs: 2000000, Procs: 16, Seeds: 3, WallS: 3300},
+		Thorough: tierCfg{Runs: 300000, Procs: 16, Seeds: 3, WallS: 3300},
 		Rule: "one evaluation = one simulated life of the whole prefork server: a master process running the real StartMaster/spawnProcess/readNamedPipe/maintainChildState, real workers (StartWorker, writeProcState, RespWriter, net/http.ReadRequest) started through the simulated exec, the real FIFO helper code, on a simulated kernel (processes, FIFO with POSIX open/EOF semantics, listening socket with shared accept queue, connections, clock); per run InitProcs 1-4, MaxProcs Init-6, Timeout 1-3 s, 1-6 clients x 1-4 requests with gaps 0-2 s (one run in eight: MaxProcs 11-26, so that full spawn batches of ten fit, with 12-25 clients sending long back-to-back requests), request scripts instant / 0.1-0.9 s / hang / timeout +-2 ms / handler panic; a seeded scheduler picks the next task at every step (bias to keep the current task drawn per run). Fault kinds, each enabled in a random subset of runs and bounded per run: worker SIGKILL at a drawn time, right after accept, during start-up, all workers at once; hung request; near-timeout request; slow start-up 0-2 s; client abort before/mid request; client stalling for ever after half a request, i.e. inside the headers (at most max-procs-1 of them); uploads: complete headers whose body arrives 0.1-0.6 x timeout later (must be served) or never with the connection left open (not together with the stalling clients); responses of 300 KB over connections whose ends hold 64 KB and serialise their writers, to clients that read them or that stop reading after 16 bytes; clients that send surplus bytes after a well-formed request (a trailing CRLF, a pipelined second request, stray text); handler panic; master stalled (none of its tasks scheduled) for 0.1-2 s; the master's own environment holding stale ZINC_EXEC_TIMEOUT / ZINC_PIPE_ID / ZINC_PREFORK_CHILD values (a quarter of the runs). A run in which more than 600 workers are started is stopped and reported (I2: the pool never settles). After the active phase a quiet phase (no new requests or faults, fair scheduling) of Timeout x (requests+1) + 60 simulated seconds. Oracle over the kernel's ground truth: I1 live workers <= max-procs after every step; I2 live >= init-procs at the end of the quiet phase; I3 each token handled at most once, own response, no overlapping requests in one pid, healthy requests answered; I4 a hung worker, a worker that accepted an upload whose body never arrives and a worker parked in a write to a client that stopped reading is gone by start+timeout+5 s and healthy requests elsewhere are undisturbed; I5 the master does not exit unless signalled. distinct_nontrivial = distinct abstract states (live workers / busy handlers / accept backlog) plus distinct interleavings (hash of the context-switch sequence).",
 		Assume: []string{
 			"kernel model deviations: unbounded accept backlog, FIFO frames written whole (5 bytes <= PIPE_BUF), pids never reused, fork/FIFO-creation failure and master SIGKILL are not injected (outside the property's fault list)",
@@ -108,7 +108,7 @@ func init() {
 	props["C16"] = &propCfg{
 		ID: "C16", Harness: "iso",
 		Quick:    tierCfg{Runs: 4000, Procs: 8, WallS: 900, Params: "shrinkcap=40"},
-		Thorough: tierCfg{Runs: 150000, Procs: 16, Seeds: 2, WallS: 3500, Params: "shrinkcap=40,enum=1"},
+		Thorough: tierCfg{Runs: 100000, Procs: 16, Seeds: 2, WallS: 3500, Params: "shrinkcap=40,enum=1"},
 		Rule: "thorough tier: the first runs of every seed ENUMERATE every single polluter of the catalogue (every mutating method name x every predefined value x 5 argument shapes; constructor redefinition and property assignment for every predefined value and library class; every mutator on every property/copy/item of a fresh library object) against every victim kind (about 9,500 histories of length one). Otherwise: one evaluation = (two thirds of the runs, part A) a history P1;...;Pn;Q, n <= 4, played in ONE freshly exec'ed OS process (the long-lived REPL/server situation; each execution has its own simulated disk; the Interpreter object is reused or replaced per execution by a tape draw) with polluters Pi drawn from a catalogue generated from the actual global table (every mutating method name x every predefined value with 0-2 arguments, 如何新建X？ for every predefined value and for a registered library class, property assignment on every predefined value, declarations of global names and of names victims use, a program that dies inside nested calls, imports of every library, a file project whose module has the victim's module name but other content, a failing library call, a JSON document of 60 B / 1.1 KB / 5 KB parsed, bound without a copy and patched in place, a redefined constructor that declares things and is used, an object of the real class HTTP响应 (library @HTTP, three body kinds) whose 头部 and 状态码 are changed in place, one request to a ZnHttpHandler whose entry program fills defaults into the parts of its own request object (four request shapes), the result of each of 32 built-in method calls bound with 得到 and changed in place by a type-appropriate mutator — singly and as one batch program) and a victim Q from a fixed battery (reads of every predefined value, arithmetic on 数值, throw/catch, uncaught throw, JSON round trip, a file project importing a module, local names, a script importing a module, 新建异常, a library class, the byte-identical JSON document parsed and read, one request to a ZnHttpHandler whose entry program displays the parts of its request, fresh HTTP响应 objects displayed; one victim in four is one of the polluters run AGAIN, two in four are chosen in relation to a polluter of the history); reference = Q alone in another freshly exec'ed process; (one third, part B) 2-4 simulated callers entering one ZnPlaygroundHandler / ZnHttpHandler with one shared interpreter under the seeded scheduler, pre-empted at every function entry of pkg/exec, pkg/runtime, pkg/server; oracles: every response equals the response of the same request served alone, and the lockset oracle over the T4 access records (package-level variables, fields of Zn struct types reached through selector chains, and maps by identity; same location, two caller tasks, at least one write, no common lock) reports nothing. distinct_nontrivial = distinct (polluter kind, victim) pairs and histories plus distinct interleavings of part B.",
 		Assume: []string{
 			"Go's race detector cannot be used under a controlled scheduler (gate hand-offs are happens-before edges); the T4 + lockset oracle replaces it and sees only accesses written as x.f / pkgvar in Zn's own packages, reached through a pure chain of variables, field selections and dereferences (identity = address of the field)",
